@@ -191,6 +191,28 @@ def hello_exts(m):
     except Exception:
         return None
 
+def ev_out(e):
+    """output of a logged derivation (L: ... secret label ctx out in-role; X/P: ... out)"""
+    return e[7] if e[0] == "L" else e[6]
+
+# destination field -> derivation site (the site names of tools/srcgen/gen_tls_labels.py and of the spec's rfc_labels)
+OUT_SITE = {"tls13HsTrafficSecretClient": "c_hs_traffic", "tls13HsTrafficSecretServer": "s_hs_traffic", "tls13AppTrafficSecretClient": "c_ap_traffic",
+            "tls13AppTrafficSecretServer": "s_ap_traffic", "tls13ResumptionMasterSecret": "res_master", "tls13EarlyTrafficSecretClient": "c_e_traffic",
+            "tls13FinishedKey": "finished", "tls13ExtBinderKey": "finished"}
+def field(role): return role.split("+")[0].split(".")[-1]
+def site_of_expand(e, isres):
+    """derivation site of a psHkdfExpandLabel call, from where its output goes / where its input secret lives"""
+    o, i = field(e[3]), field(e[8]) if len(e) > 8 else "-"
+    if o in OUT_SITE: return OUT_SITE[o]
+    if o == "tls13ExtBinderSecret": return "res_binder" if isres else "ext_binder"
+    if re.search(r"(Read|Write|Data)Key$", o): return "key"
+    if re.search(r"(Read|Write|Data)Iv$", o): return "iv"
+    if o == "-":
+        if i == "tls13ResumptionMasterSecret": return "resumption"
+        if i in ("tls13EarlySecret", "tls13EarlySecretSha384", "tls13HandshakeSecret"): return "derived"
+        if i == "tls13ExtBinderSecret": return "finished"
+    return None
+
 HRR_RANDOM = bytes.fromhex("CF21AD74E59A6111BE1D8C021E65B891C2A211167ABB8C5E079E09E2C8A8339C")
 joinm = lambda ms: ",".join(m.hex() for m in ms) if ms else "-"
 
@@ -230,6 +252,46 @@ class Sess:
         return out
     def wire(self, direction=None):
         return [r for r in self.d.recs if direction is None or r[0] == direction]
+
+    def label_sites(self):
+        """{site: set of label byte strings (hex) the library passed there in this session}; sites are identified by the
+        destination / source of the derivation and by the seed's tail, never by the label"""
+        out = {}
+        def add(site, lab):
+            if site: out.setdefault(site, set()).add(lab)
+        if not self.done or self.problems or not hasattr(self, "msgs"): return out
+        if self.ver == 4:
+            hl = 48 if self.hash == "sha384" else 32
+            for e in self.d.ev:
+                if e[0] == "L" and len(e) > 8: add(site_of_expand(e, True), "" if e[5] == "-" else e[5])
+            for e in self.d.events("V"):          # psVerify input: 64 x 0x20, context string, 0, transcript hash
+                b = vlib.unhex(e[4])
+                if len(b) > 64 + 1 + hl and b[:64] == b" " * 64 and b[-hl - 1] == 0:
+                    add("cv_server" if e[1] == "0" else None, b[64:-hl - 1].hex())
+            cvs = [i for i, m in enumerate(self.msgs) if m[0] == 15]
+            fins = [i for i, m in enumerate(self.msgs) if m[0] == 20]
+            if len(cvs) == 2 and len(fins) == 2:      # the client's CertificateVerify: the last content the server verified
+                vs = [vlib.unhex(e[4]) for e in self.d.events("V") if e[1] == "1"]
+                for b in vs[-1:]:
+                    if len(b) > 64 + 1 + hl and b[:64] == b" " * 64: add("cv_client", b[64:-hl - 1].hex())
+        else:
+            H = (lambda b: hashlib.md5(b).digest() + hashlib.sha1(b).digest()) if self.ver < 3 else (hashlib.sha384 if self.hash == "sha384" else hashlib.sha256)
+            hh = (lambda b: H(b)) if self.ver < 3 else (lambda b: H(b).digest())
+            fidx = [i for i, m in enumerate(self.msgs) if m[0] == 20]
+            tails = {}
+            if len(fidx) == 2:
+                first, second = hh(b"".join(self.msgs[:fidx[0]])), hh(b"".join(self.msgs[:fidx[1]]))
+                tails = {first.hex(): "client_finished" if self.full else "server_finished", second.hex(): "server_finished" if self.full else "client_finished"}
+            for e in self.d.events("P"):
+                dest, seed = field(e[3]), e[5]
+                if dest == "masterSecret":
+                    if getattr(self, "ems", False): add("ext_master", seed[:-len(tails and next(iter(tails)) or "")] if tails else None) if False else add("ext_master", seed[:len(seed) - 2 * len(hh(b""))])
+                    else: add("master", seed[:-128])
+                elif dest == "keyBlock": add("key_block", seed[:-128])
+                elif dest == "-":
+                    for t, site in tails.items():
+                        if seed.endswith(t): add(site, seed[:-len(t)])
+        return out
 
     # -- TLS 1.1 / 1.2
     def build12(self):
@@ -443,7 +505,7 @@ class Sess:
         def role(name, key, kinds=("L", "X")):
             vs = self.role_vals(kinds, name)
             if not vs and key not in ("binder_key", "c_e", "c_e_key", "c_e_iv"): self.problems.append("no derivation into %s was logged" % name)
-            for side, e in vs: C.append(("%s %s" % (side, name), e[-1], key))
+            for side, e in vs: C.append(("%s %s" % (side, name), ev_out(e), key))
         role("tls13EarlySecretSha384" if hl == 48 else "tls13EarlySecret", "early")
         if psk:
             role("tls13ExtBinderSecret", "binder_key")
@@ -454,15 +516,15 @@ class Sess:
         # client_early_traffic_secret is defined over the first ClientHello; after a HelloRetryRequest 0-RTT is off (RFC 8446 4.2.10)
         # and whatever the server still derives into that field is never used
         early_ok = not hrr
-        for side, e in (self.role_vals(("L",), "tls13EarlyTrafficSecretClient") if early_ok else []): C.append(("%s tls13EarlyTrafficSecretClient" % side, e[-1], "c_e"))
+        for side, e in (self.role_vals(("L",), "tls13EarlyTrafficSecretClient") if early_ok else []): C.append(("%s tls13EarlyTrafficSecretClient" % side, ev_out(e), "c_e"))
         for fld, ck_, sk_ in (("tls13HsWriteKey", "c_hs_key", "s_hs_key"), ("tls13HsWriteIv", "c_hs_iv", "s_hs_iv"), ("tls13HsReadKey", "s_hs_key", "c_hs_key"),
                               ("tls13HsReadIv", "s_hs_iv", "c_hs_iv"), ("tls13AppWriteKey", "c_ap_key", "s_ap_key"), ("tls13AppWriteIv", "c_ap_iv", "s_ap_iv"),
                               ("tls13AppReadKey", "s_ap_key", "c_ap_key"), ("tls13AppReadIv", "s_ap_iv", "c_ap_iv")):
             vs = self.role_vals(("L",), fld)
             if not vs: self.problems.append("no derivation into %s was logged" % fld)
-            for side, e in vs: C.append(("%s %s" % (side, fld), e[-1], ck_ if side == "c" else sk_))
-        for side, e in (self.role_vals(("L",), "tls13EarlyDataKey") if early_ok else []): C.append(("%s tls13EarlyDataKey" % side, e[-1], "c_e_key"))
-        for side, e in (self.role_vals(("L",), "tls13EarlyDataIv") if early_ok else []): C.append(("%s tls13EarlyDataIv" % side, e[-1], "c_e_iv"))
+            for side, e in vs: C.append(("%s %s" % (side, fld), ev_out(e), ck_ if side == "c" else sk_))
+        for side, e in (self.role_vals(("L",), "tls13EarlyDataKey") if early_ok else []): C.append(("%s tls13EarlyDataKey" % side, ev_out(e), "c_e_key"))
+        for side, e in (self.role_vals(("L",), "tls13EarlyDataIv") if early_ok else []): C.append(("%s tls13EarlyDataIv" % side, ev_out(e), "c_e_iv"))
         # the keys the record layer holds at the end
         for side in "cs":
             w, r = ("c", "s") if side == "c" else ("s", "c")
